@@ -344,6 +344,7 @@ def run(chk):
     # ---- (4) guards of compute ----------------------------------------------------------------------------------------------------------
     _guards(chk, src)
     _patches(chk, src)
+    _coupling_consistency(chk, src)
     chk.note(decoupling_cases=n_dec, files=["src/eko/msbar_masses.py", "src/eko/couplings.py"])
     chk.explanation = "fsolve lint; kernels by PE + series; decoupling by PE with symbolic coupling; RG-derived logs; guard truth table."
 
@@ -556,3 +557,73 @@ def _fmt(c):
         return "missing"
     names = {"evolve": ("m2", "Qm2", "to", "nf_from", "nf_to", "coupling masses"), "solve": ("m2", "Q2", "nf", "coupling masses")}[c[0]]
     return c[0] + "(" + ", ".join(f"{k}={'(' + ','.join(map(str, v)) + ')' if isinstance(v, tuple) else v}" for k, v in zip(names, c[1:])) + ")"
+
+
+def _coupling_consistency(chk, src):
+    """"... with the same coupling, order and matching ratios": the coupling compute() builds for solving and pre-evolving is
+    evaluated by ker_dispatcher at (mass scale)^2 * s; its flavour thresholds must then sit at m^2 * k * s - the same factor - so
+    that it switches flavour number exactly where the mass patches do; order, method and the MSbar scheme flag are handed on."""
+    fc = src.func(f"{MM}.compute")
+    fk = src.func(f"{MM}.ker_dispatcher")
+    # the factor at which the kernel evaluates the coupling
+    pe = PE(src)
+    asked = []
+
+    class SCm(Opaque):
+        method = "exact"
+        order = (2, 0)
+
+        def a(self, q2, nf=None):
+            asked.append(q2)
+            return (dag.fn("as", dag.tonode(q2), dag.const(nf)), 0)
+
+    pe.overrides[f"{MM}.ker_exact"] = lambda p, a, k: 1
+    q_from, q_to, x = dag.sym("q2m_ref"), dag.sym("q2_to"), dag.sym("xif2")
+    pe.call(fk.qname, [q_to, q_from, SCm(), x, 4])
+    chk.need(len(asked) == 2, "ker_dispatcher no longer evaluates the coupling at its two end points")
+    s_eval = []
+    for a, q in zip(sorted(asked, key=lambda n: "q2_to" in dag.short(dag.tonode(n))), (q_from, q_to)):
+        s_eval.append(dag.div(dag.tonode(a), q))
+    same, _ = dag.is_zero_fp([dag.sub(s_eval[0], s_eval[1])], chk.seed, 2)
+    chk.decide(same, "coupling-walls-move-with-the-evaluation-scale", fk.qname, f"the two end points are evaluated at different multiples of "
+               f"the mass scale ({dag.short(s_eval[0])}, {dag.short(s_eval[1])})", where=fk.where, instance="kernel-factor")
+    # the thresholds of the coupling built by compute
+    built = []
+    pe = PE(src)
+    ks = [dag.sym("kc2"), dag.sym("kb2"), dag.sym("kt2")]
+
+    def m_coupl(p, a, k):
+        built.append(dict(k))
+        return "SC"
+
+    pe.overrides["eko.couplings.Couplings"] = m_coupl
+    pe.overrides[f"{MM}.solve"] = lambda p, a, k: Fraction(25)
+    pe.overrides[f"{MM}.evolve"] = lambda p, a, k: a[0]
+    pe.ext["numpy.allclose"] = lambda p, a, k: True
+
+    class Ref(Opaque):
+        def __init__(self, value, scale):
+            self.value, self.scale = value, scale
+
+    ms = Opaque()
+    ms.c, ms.b, ms.t = Ref(Fraction(2), Fraction(2)), Ref(Fraction(51, 10), Fraction(10)), Ref(Fraction(170), Fraction(170))
+    cp = Opaque()
+    cp.ref = (Fraction(91), 5)
+    pe.call(fc.qname, [ms, cp, (3, 0), "exact", list(ks)], {"xif2": x})
+    chk.need(built, "compute builds no coupling for a mass given away from its own scale")
+    for i, kw in enumerate(built):
+        tr = kw.get("thresholds_ratios")
+        tr = tr.flat() if isinstance(tr, Arr) else list(tr) if isinstance(tr, (list, tuple)) else None
+        ok = tr is not None and len(tr) == 3
+        if ok:
+            ok, _ = dag.is_zero_fp([dag.sub(dag.tonode(t), dag.mul(k_, s_eval[0])) for t, k_ in zip(tr, ks)], chk.seed, 2)
+        chk.decide(ok, "coupling-walls-move-with-the-evaluation-scale", fc.qname,
+                   f"the coupling used for the masses has threshold ratios {[dag.short(dag.tonode(t)) for t in (tr or [])]} but is evaluated at "
+                   f"(mass scale)^2 * {dag.short(s_eval[0])}: required k * {dag.short(s_eval[0])}, otherwise it changes flavour number "
+                   f"away from the mass patches whenever that factor is not 1", where=fc.where, instance=f"coupling#{i}")
+        meth = kw.get("method")
+        sch = kw.get("hqm_scheme")
+        chk.decide(kw.get("order") == (3, 0) and meth == "exact" and "MSBAR" in str(getattr(sch, "attrs", {}).get("_name_", sch)).upper(),
+                   "coupling-walls-move-with-the-evaluation-scale", fc.qname,
+                   f"the coupling is built with order={kw.get('order')}, method={meth}, scheme={sch}; required the caller's order and method "
+                   f"and the MSbar scheme", where=fc.where, instance=f"coupling#{i}:settings")
